@@ -53,7 +53,7 @@ var fieldCovSpecs = map[string]fieldCovSpec{
 	},
 	"eval": {
 		which: "eval", rel: "pkg/evaluator", childOnly: true,
-		roots: func(f *FuncDecl) bool { return true },
+		roots:  func(f *FuncDecl) bool { return true },
 		exempt: map[string]string{},
 		floor:  25,
 	},
